@@ -11,19 +11,19 @@ PROPS = {
     "C01": {
         "lean_module": "SplProofs.C01",
         "streams": ["C01"],
-        "rule": "stream tlvhist: histories from a zeroed buffer (sizes 0..300, weighted to exact fit and +-1..12 around it) over an adversarial 8-tag palette and value sizes 0/1/3/5(non-zero default)/8/32 and variable lengths: alloc +-repetition, init_value, realloc to 0 / same / exact fit / fit+1 / > u32::MAX, byte and typed writes through the mutable views, var-len pack (streaming packer), alloc_and_pack, lookups (incl. the get_first_* / *_first_* wrappers for repetition 0), get_discriminators, reopen through the three views; the generator steers towards failing operations at every state; after every op the raw buffer, returned slice range (pointer arithmetic) and repetition number are compared with the model and with a shadow Vec<(tag, Vec<u8>)> + independent canonical encoder;  non-trivial = history with >= 2 successful mutations on >= 2 entries and a resize/write that is not on the last entry",
+        "rule": "stream tlvhist: histories from a zeroed buffer (sizes 0..300, weighted to exact fit and +-1..12 around it) over an adversarial 8-tag palette and value sizes 0/1/3/5(non-zero default)/8/32 and variable lengths: alloc +-repetition, init_value, realloc to 0 / same / exact fit / fit+1 / > u32::MAX, byte and typed writes through the mutable views, var-len pack (streaming packer), alloc_and_pack, lookups (incl. the get_first_* / *_first_* wrappers for repetition 0), get_discriminators, reopen through the three views; the generator steers towards failing operations at every state; plus special cases outside the line protocol's buffers: entries whose length needs the 3rd/4th length byte (up to 16 MiB) and a 4 GiB zeroed buffer for the length-not-representable failure; after every op the raw buffer, returned slice range (pointer arithmetic) and repetition number are compared with the model and with a shadow Vec<(tag, Vec<u8>)> + independent canonical encoder;  non-trivial = history with >= 2 successful mutations on >= 2 entries and a resize/write that is not on the last entry",
         "assumptions": COMMON_ASSUME + ["type tags are 8-byte non-zero discriminators", "typed reads/writes use align-1 Pod types"],
     },
     "C03": {
         "lean_module": "SplProofs.C03",
         "streams": ["C03"],
-        "rule": "stream tlvhist: histories from a zeroed buffer (sizes 0..300, weighted to exact fit and +-1..12 around it) over an adversarial 8-tag palette and value sizes 0/1/3/5(non-zero default)/8/32 and variable lengths: alloc +-repetition, init_value, realloc to 0 / same / exact fit / fit+1 / > u32::MAX, byte and typed writes through the mutable views, var-len pack (streaming packer), alloc_and_pack, lookups (incl. the get_first_* / *_first_* wrappers for repetition 0), get_discriminators, reopen through the three views; the generator steers towards failing operations at every state; after every op the raw buffer, returned slice range (pointer arithmetic) and repetition number are compared with the model and with a shadow Vec<(tag, Vec<u8>)> + independent canonical encoder;  raw bytes compared byte-for-byte with an independent encoder of the logical entry list after every step; non-trivial as C01",
+        "rule": "stream tlvhist: histories from a zeroed buffer (sizes 0..300, weighted to exact fit and +-1..12 around it) over an adversarial 8-tag palette and value sizes 0/1/3/5(non-zero default)/8/32 and variable lengths: alloc +-repetition, init_value, realloc to 0 / same / exact fit / fit+1 / > u32::MAX, byte and typed writes through the mutable views, var-len pack (streaming packer), alloc_and_pack, lookups (incl. the get_first_* / *_first_* wrappers for repetition 0), get_discriminators, reopen through the three views; the generator steers towards failing operations at every state; plus special cases outside the line protocol's buffers: entries whose length needs the 3rd/4th length byte (up to 16 MiB) and a 4 GiB zeroed buffer for the length-not-representable failure; after every op the raw buffer, returned slice range (pointer arithmetic) and repetition number are compared with the model and with a shadow Vec<(tag, Vec<u8>)> + independent canonical encoder;  raw bytes compared byte-for-byte with an independent encoder of the logical entry list after every step; non-trivial as C01",
         "assumptions": COMMON_ASSUME + ["type tags are 8-byte non-zero discriminators"],
     },
     "C04": {
         "lean_module": "SplProofs.C04",
         "streams": ["C04"],
-        "rule": "stream tlvhist: histories from a zeroed buffer (sizes 0..300, weighted to exact fit and +-1..12 around it) over an adversarial 8-tag palette and value sizes 0/1/3/5(non-zero default)/8/32 and variable lengths: alloc +-repetition, init_value, realloc to 0 / same / exact fit / fit+1 / > u32::MAX, byte and typed writes through the mutable views, var-len pack (streaming packer), alloc_and_pack, lookups (incl. the get_first_* / *_first_* wrappers for repetition 0), get_discriminators, reopen through the three views; the generator steers towards failing operations at every state; after every op the raw buffer, returned slice range (pointer arithmetic) and repetition number are compared with the model and with a shadow Vec<(tag, Vec<u8>)> + independent canonical encoder;  plus histories that start from openable but non-canonical buffers (entries, terminator, garbage); non-trivial = history that reaches a state with >= 1 entry and executes >= 1 failing mutation there",
+        "rule": "stream tlvhist: histories from a zeroed buffer (sizes 0..300, weighted to exact fit and +-1..12 around it) over an adversarial 8-tag palette and value sizes 0/1/3/5(non-zero default)/8/32 and variable lengths: alloc +-repetition, init_value, realloc to 0 / same / exact fit / fit+1 / > u32::MAX, byte and typed writes through the mutable views, var-len pack (streaming packer), alloc_and_pack, lookups (incl. the get_first_* / *_first_* wrappers for repetition 0), get_discriminators, reopen through the three views; the generator steers towards failing operations at every state; plus special cases outside the line protocol's buffers: entries whose length needs the 3rd/4th length byte (up to 16 MiB) and a 4 GiB zeroed buffer for the length-not-representable failure; after every op the raw buffer, returned slice range (pointer arithmetic) and repetition number are compared with the model and with a shadow Vec<(tag, Vec<u8>)> + independent canonical encoder;  plus histories that start from openable but non-canonical buffers (entries, terminator, garbage); non-trivial = history that reaches a state with >= 1 entry and executes >= 1 failing mutation there",
         "assumptions": COMMON_ASSUME + ["type tags are 8-byte non-zero discriminators"],
     },
     "C02": {
@@ -41,7 +41,7 @@ PROPS = {
         "streams": ["C05"],
         "rule": "stream resolve: structured configs of every kind (fixed key; PDA with 0..16 seeds of every kind incl. boundary indices end == len / len+1, 32- and 33-byte slices, forward references; "
                 "external-program PDAs with in/out-of-range index; key-from-data at the last valid / first invalid offset) and uniformly random 35-byte configs over all 256 kind bytes and arbitrary flag bytes; "
-                "instruction data 0..80 bytes, 0..6 accounts with data None / 0..80 bytes; the Lean driver derives the PDA itself (SHA-256 + Ed25519 on-curve test + bump search), compared on the final key; "
+                "instruction data 0..80 bytes (also 250..300 and 509..520), 0..6 accounts with data None / 0..80 bytes (also 250..300, 509..520); the Lean driver derives the PDA itself (SHA-256 + Ed25519 on-curve test + bump search), compared on the final key; "
                 "oracle = independent re-parse of the config bytes + Pubkey::try_find_program_address; plus every constructor; non-trivial = reaches a kind-specific branch",
         "trusted": ["Pubkey::try_find_program_address is a parameter of the theorems; its Lean implementation (Ed25519.pda) is validated against solana-pubkey by the stream, not proved"],
         "assumptions": COMMON_ASSUME,
@@ -49,7 +49,7 @@ PROPS = {
     "C06": {
         "lean_module": "SplProofs.C06",
         "streams": ["C06"],
-        "rule": "stream privileges: scenarios over a 6-key world (so fixed keys collide with existing metas and extra keys repeat): instructions with 0..5 metas with duplicate keys and mixed flags, stored lists of 0..5 configs of every kind built through the real init (sometimes with one corrupted byte), instruction data 0..80 bytes;  off-chain helper with a fetch map (present / absent accounts) and CPI helper with initial infos mirroring the metas and a shuffled pool; oracle = the four privilege "
+        "rule": "stream privileges: scenarios over a 6-key world (so fixed keys collide with existing metas and extra keys repeat): instructions with 0..5 metas (one scenario in thirty: 253..258 metas) with duplicate keys and mixed flags, stored lists of 0..5 configs of every kind built through the real init (sometimes with one corrupted byte), instruction data 0..80 bytes;  off-chain helper with a fetch map (present / absent accounts) and CPI helper with initial infos mirroring the metas and a shuffled pool; oracle = the four privilege "
                 "clauses evaluated on Instruction.accounts; non-trivial = >= 2 appended metas or an appended key that collides with an existing meta",
         "trusted": ["Pubkey::try_find_program_address is a parameter of the theorems (validated executable instance)"],
         "assumptions": COMMON_ASSUME,
@@ -57,7 +57,7 @@ PROPS = {
     "C07": {
         "lean_module": "SplProofs.C07",
         "streams": ["C07"],
-        "rule": "stream check-infos: scenarios over a 6-key world (so fixed keys collide with existing metas and extra keys repeat): instructions with 0..5 metas with duplicate keys and mixed flags, stored lists of 0..5 configs of every kind built through the real init (sometimes with one corrupted byte), instruction data 0..80 bytes;  accepted account lists (each config resolved against the final list, incl. forward references) and every single-field mutation of them: one key, one signer flag, one "
+        "rule": "stream check-infos: scenarios over a 6-key world (so fixed keys collide with existing metas and extra keys repeat): instructions with 0..5 metas (one scenario in thirty: 253..258 metas) with duplicate keys and mixed flags, stored lists of 0..5 configs of every kind built through the real init (sometimes with one corrupted byte), instruction data 0..80 bytes;  accepted account lists (each config resolved against the final list, incl. forward references) and every single-field mutation of them: one key, one signer flag, one "
                 "writable flag, one account dropped / inserted / swapped / appended, lists shorter than the config list, malformed stored bytes; oracle = iff-statement re-evaluated with an independent resolver; "
                 "non-trivial = stored list with >= 1 config",
         "trusted": ["Pubkey::try_find_program_address is a parameter of the theorems (validated executable instance)"],
@@ -66,7 +66,7 @@ PROPS = {
     "C08": {
         "lean_module": "SplProofs.C08",
         "streams": ["C08"],
-        "rule": "stream offchain-vs-cpi: scenarios over a 6-key world (so fixed keys collide with existing metas and extra keys repeat): instructions with 0..5 metas with duplicate keys and mixed flags, stored lists of 0..5 configs of every kind built through the real init (sometimes with one corrupted byte), instruction data 0..80 bytes;  both helpers run on the same scenario (fetcher = the data the infos hold), pool = a random permutation of the world's accounts, sometimes incomplete or with a duplicate; "
+        "rule": "stream offchain-vs-cpi: scenarios over a 6-key world (so fixed keys collide with existing metas and extra keys repeat): instructions with 0..5 metas (one scenario in thirty: 253..258 metas) with duplicate keys and mixed flags, stored lists of 0..5 configs of every kind built through the real init (sometimes with one corrupted byte), instruction data 0..80 bytes;  both helpers run on the same scenario (fetcher = the data the infos hold), pool = a random permutation of the world's accounts, sometimes incomplete or with a duplicate; "
                 "oracle = both fail or both succeed with identical metas (CPI may additionally fail only when the pool lacks a resolved key), untouched prefix, one meta per config, lockstep infos; non-trivial as C06",
         "trusted": ["Pubkey::try_find_program_address is a parameter of the theorems (validated executable instance)", "the async off-chain helper is driven by a single-poll executor (futures::executor::block_on)"],
         "assumptions": COMMON_ASSUME + ["precondition of the property: initial infos mirror the instruction's metas; the fetcher returns the data the infos hold"],
@@ -176,7 +176,7 @@ PROPS = {
         "extra_modules": ["SplProofs.C17Source"],
         "streams": ["C17"],
         "rule": "stream tok: public constants and id helpers vs the regenerated model constants, the native mint's canned data, boundary enumeration of layout lengths x marker bytes x both ids, then random buffers (lengths 0..600 weighted to "
-                "82/165/166/355 neighbours, special bytes at 44/45/108/165) x program ids (real, one-bit near misses, random); non-trivial = "
+                "82/165/166/355 neighbours, special bytes at 44/45/108/165) x program ids (real, one-bit near misses, random), every case placed at a varying offset 0..7 from an 8-aligned address; non-trivial = "
                 "buffer of a layout length (82 or >=165); distinct by hash of the case line",
         "assumptions": COMMON_ASSUME,
     },
